@@ -69,3 +69,14 @@ Theorem C03_error_changes_nothing : forall cfg s src tid c r unk s' acts d m t c
   step cfg s (EReq src tid c r unk) = (s', acts) -> In (Error d m t code ch) acts -> s' = s /\ acts = [Error d m t code ch].
 Proof. exact error_means_unchanged. Qed.
 Print Assumptions C03_error_changes_nothing.
+
+(* ---------- the RFC 6062 path ---------- *)
+From Turn Require Import TcpRelay C16Check C04TcpCheck C03TcpCheck TcpIso TcpTrace.
+(* on every history of TCP-relay events (any number of allocations and users; connection ids fresh, as for C16): a
+   ConnectionBind succeeds only for the user that owns the allocation the connection was announced to, only for an
+   announced id, once and within 30 s; and a refused ConnectionBind - another user's valid credentials, an unknown id -
+   changes nothing: the owner's own timely ConnectionBind still succeeds. The same predicate is evaluated on the real
+   server's traces by TestVerif_C03TCP. *)
+Theorem C03_tcp_bind_authorisation_on_every_model_trace : forall h, cids_fresh [] h -> C03TcpCheck.run (tmodel_case h) = (true, true).
+Proof. exact c03_tcp_on_model. Qed.
+Print Assumptions C03_tcp_bind_authorisation_on_every_model_trace.
